@@ -304,3 +304,8 @@ func init() {
 	prop("C20", "C20-R5")
 	prop("C01", "C20-R5")
 }
+
+func init() {
+	prop("C20", "C20-R6")
+	prop("C02", "C20-R6")
+}
